@@ -1275,8 +1275,20 @@ def registry_src(crate):
     raise Undecided('vendored source of %s-%s not found' % (crate, ver))
 
 
-_OPAQUE_DECLARED = set()
-_MIRROR_OPTS = {}
+import threading  # noqa: E402
+_TL = threading.local()  # per-expansion state: units are expanded concurrently by the runner
+
+
+def _opaque_declared():
+    if not hasattr(_TL, 'opaque'):
+        _TL.opaque = set()
+    return _TL.opaque
+
+
+def _mirror_opts():
+    if not hasattr(_TL, 'opts'):
+        _TL.opts = {}
+    return _TL.opts
 
 
 def _opaque_name(ty):
@@ -1306,10 +1318,10 @@ def _mirror_type(ty, known):
         return ty, []
     name = _opaque_name(ty)
     decls = []
-    if name not in _OPAQUE_DECLARED:
-        _OPAQUE_DECLARED.add(name)
+    if name not in _opaque_declared():
+        _opaque_declared().add(name)
         decls.append('#[verifier::external_body] pub struct %s; // opaque payload: %s' % (name, ty))
-        if _MIRROR_OPTS.get('defaults'):
+        if _mirror_opts().get('defaults'):
             decls.append('pub uninterp spec fn default_%s() -> %s;' % (name, name))
             decls.append('impl Default for %s { #[verifier::external_body] fn default() -> (r: Self) ensures r == default_%s() { unimplemented!() } }' % (name, name))
     return name, decls
@@ -1323,7 +1335,7 @@ def field_mirror(args, log):
        the template itself defines or mirrors)."""
     rest, opts = parse_opts(args)
     crate, relfile, struct = rest.split()[:3]
-    _MIRROR_OPTS['defaults'] = opts.get('defaults') == 'yes'
+    _mirror_opts()['defaults'] = opts.get('defaults') == 'yes'
     root, ver = registry_src(crate)
     src = open(os.path.join(root, relfile), encoding='utf-8').read()
     kind = rs.code_mask(src)
@@ -1389,6 +1401,8 @@ def _camel(f):
 
 
 def expand(template_path, out_path, extra_tail=''):
+    _TL.opaque = set()
+    _TL.opts = {}
     log = Log()
     fnmap = []
     out = []
